@@ -55,7 +55,8 @@ COMPONENTS = {
 PROBES = ["file_system_changed_between_parses", "sampled_alphabet_history_run", "history_with_include_files", "exhaustive_history_run", "failing_parse_scope_depth_ge2", "main_program0_path", "same_unit_name_consecutive",
           "compared_in_clean_state", "compared_after_failure", "block_counter_nonzero_at_compare",
           "fparser1_interleaved", "create_switches_std", "stream_fault_failure",
-          "failure_in_unclean_state", "exit_trapped", "near_twin_sources_both_parsed"]
+          "failure_in_unclean_state", "exit_trapped", "near_twin_sources_both_parsed",
+          "failing_parse_while_like_named_table_exists"]
 STATE_MEASURE = ("distinct (std, clean, open scope name, table-name set, memo-size bucket) after "
                  "each operation, plus distinct op-kind sequences")
 
@@ -780,6 +781,7 @@ def execute(case):
             want = refs[key]["outcome"]
             before_scope, before_tables = fp.tables_snapshot()
             names_before = fp.table_names()
+            contents_before = fp.tables_contents()
             if prev_parse_key == op[1]:
                 probe("same_unit_name_consecutive")
             prev_parse_key = op[1]
@@ -827,6 +829,9 @@ def execute(case):
                     probe("failure_in_unclean_state")
                 if _max_scope_depth_names(text) >= 2:
                     probe("failing_parse_scope_depth_ge2")
+                first = text.lstrip().lower().split("\n")[0].split("(")[0].split()
+                if len(first) >= 2 and first[-1] in [n.strip().lower() for n in names_before]:
+                    probe("failing_parse_while_like_named_table_exists")
                 how = outcome[0] + (":" + outcome[1] if outcome[0] == "exit" else "")
                 polluted = before_scope is not None  # an earlier op already left a scope open
                 if after_scope is not None and not polluted:
@@ -847,6 +852,13 @@ def execute(case):
                     violate("C09.b tables-changed-by-failing-parse", site,
                             {"op": k, "program": op[1], "removed": removed, "added": added,
                              "text": text[:400]})
+                elif not polluted:
+                    contents_after = fp.tables_contents()
+                    if contents_after != contents_before:
+                        violate("C09.b tables-changed-by-failing-parse",
+                                "entries-left-in-preexisting-table/%s" % how,
+                                {"op": k, "program": op[1], "before": contents_before[:600],
+                                 "after": contents_after[:600], "text": text[:400]})
                 last_failure = outcome
             else:
                 clean = False
